@@ -41,6 +41,26 @@ def nprobe(shape, pos, s, t):
         return decl + "fn main() {\n  let x: %s = %s;\n  let y: %s = x;\n}\n" % (st, lit(s), tt)
     return decl + "fn f(p: %s) {\n}\nfn main() {\n  let x: %s = %s;\n  f(x);\n}\n" % (tt, st, lit(s))
 
+# further sites at which a typed value of S meets an expected type T (each must refuse a lossy pair just as `let` does)
+def _pre(s, t):
+    return "  let x: %s = %s;\n  let y: %s = %s;\n" % (s, lit(s), t, lit(t))
+OTHER_SITES = {
+    "compound+": lambda s, t: "fn main() {\n%s  y += x;\n}\n" % _pre(s, t),
+    "compound-": lambda s, t: "fn main() {\n%s  y -= x;\n}\n" % _pre(s, t),
+    "compound*": lambda s, t: "fn main() {\n%s  y *= x;\n}\n" % _pre(s, t),
+    "compound/": lambda s, t: "fn main() {\n%s  y /= x;\n}\n" % _pre(s, t),
+    "binary-right": lambda s, t: "fn main() {\n%s  let z: %s = y + x;\n}\n" % (_pre(s, t), t),
+    "binary-left": lambda s, t: "fn main() {\n%s  let z: %s = x * y;\n}\n" % (_pre(s, t), t),
+    "const": lambda s, t: "fn main() {\n  let x: %s = %s;\n  const c: %s = x;\n}\n" % (s, lit(s), t),
+    "field-init": lambda s, t: "type R struct { .F: %s };\nfn main() {\n  let x: %s = %s;\n  let r: R = { .F = x } as R;\n}\n" % (t, s, lit(s)),
+    "field-assign": lambda s, t: "type R struct { .F: %s };\nfn main() {\n  let x: %s = %s;\n  let r: R = { .F = %s } as R;\n  r.F = x;\n}\n" % (t, s, lit(s), lit(t)),
+    "array-literal": lambda s, t: "fn main() {\n  let x: %s = %s;\n  let a: [2]%s = [x, x];\n}\n" % (s, lit(s), t),
+    "array-element": lambda s, t: "fn main() {\n  let x: %s = %s;\n  let a: [2]%s = [%s, %s];\n  a[0] = x;\n}\n" % (s, lit(s), t, lit(t), lit(t)),
+    "dynamic-array-literal": lambda s, t: "fn main() {\n  let x: %s = %s;\n  let a: []%s = [x];\n}\n" % (s, lit(s), t),
+    "optional": lambda s, t: "fn main() {\n  let x: %s = %s;\n  let o: %s? = x;\n}\n" % (s, lit(s), t),
+    "method-arg": lambda s, t: "type R struct { .F: i32 };\nfn (r: R) m(p: %s) {\n}\nfn main() {\n  let x: %s = %s;\n  let r: R = { .F = 1 } as R;\n  r.m(x);\n}\n" % (t, s, lit(s)),
+}
+
 def bits(t):
     return 8 if t == "byte" else int(t[1:])
 
@@ -96,6 +116,19 @@ def gen_table(run, work):
     v.append("Definition named_rows : list (nty * nty) := [")
     v.append(";\n".join("  (%s, %s)" % (CTOR[s], CTOR[t]) for s, t in named))
     v.append("].")
+    # other sites (compound assignment, operands, initialisers, elements, ...): every accepted pair of distinct types
+    ojobs = [(site, s, t) for site in OTHER_SITES for s in NTY for t in NTY if s != t or s in ("i32", "f64")]
+    ors = common.batch_typecheck_sources([OTHER_SITES[site](s, t) for site, s, t in ojobs], work, "o")
+    ores = {j: r["ok"] for j, r in zip(ojobs, ors)}
+    for j in ojobs:
+        run.case(("site",) + j, nontrivial=True)
+        run.count("site-accepted" if ores[j] else "site-rejected")
+    dead = [site for site in OTHER_SITES if not (ores[(site, "i32", "i32")] or ores[(site, "f64", "f64")])]
+    res["__other__"] = {"accepted": sorted(j for j in ojobs if ores[j] and j[1] != j[2]), "dead_sites": dead}
+    other = sorted({(s, t) for (site, s, t) in ojobs if s != t and ores[(site, s, t)]}, key=lambda x: (NTY.index(x[0]), NTY.index(x[1])))
+    v.append("Definition other_rows : list (nty * nty) := [")
+    v.append(";\n".join("  (%s, %s)" % (CTOR[s], CTOR[t]) for s, t in other))
+    v.append("].")
     v.append("Definition cast_rows : list (nty * nty) := [")
     v.append(";\n".join("  (%s, %s)" % (CTOR[s], CTOR[t]) for s, t in casts))
     v.append("].")
@@ -133,6 +166,12 @@ def main(run):
     run.extra["implicit_rows"] = len(rows)
     run.extra["cast_rows"] = len(casts)
     run.extra["named_rows"] = len(res.get("__named__", {}).get("rows", []))
+    run.extra["other_site_rows"] = len(res.get("__other__", {}).get("accepted", []))
+    run.extra["other_sites"] = sorted(OTHER_SITES)
+    if res.get("__other__", {}).get("dead_sites"):
+        run.violation("probe-sanity:site:" + res["__other__"]["dead_sites"][0], "site template %s accepts no identity conversion: the probe no longer compiles"
+                      % res["__other__"]["dead_sites"][0], {"probe": OTHER_SITES[res["__other__"]["dead_sites"][0]]("i32", "i32")}, no_input=True)
+        return
     run.samples = [{"probe": probe("let", "i32", "f64"), "verdict": "accepted" if res[("let", "i32", "f64")] == 0 else "rejected"},
                    {"probe": probe("ret", "u64", "i64"), "verdict": "accepted" if res[("ret", "u64", "i64")] == 0 else "rejected"}]
     run.trusted.append("translator harness/c11.py: the probe programs and the reading of ferret's exit status")
@@ -164,6 +203,14 @@ def main(run):
                           % (sh, p, s, t, s, witness(s, t), t),
                           {"program": nprobe(sh, p, s, t), "expected": "rejected (needs `as`)", "observed": "accepted by ferret -t",
                            "lost_value": witness(s, t), "theorem": "C11_named_lossless"})
+    for (site, s, t) in res.get("__other__", {}).get("accepted", []):
+        if not contained(s, t):
+            found = True
+            run.violation("site:%s:%s->%s" % (site, s, t),
+                          "a value of type %s is accepted where %s is expected at site '%s' although %s value %s is not representable in %s"
+                          % (s, t, site, s, witness(s, t), t),
+                          {"program": OTHER_SITES[site](s, t), "expected": "rejected (needs `as`)", "observed": "accepted by ferret -t",
+                           "lost_value": witness(s, t), "theorem": "C11_other_sites_lossless"})
     # positions disagree / cast missing
     rowset = set(rows)
     for s in NTY:
